@@ -262,6 +262,14 @@ pub fn addr_pool() -> impl Strategy<Value = IpAddr> {
         1 => any::<u32>().prop_map(|x| IpAddr::V4(Ipv4Addr::from(x))),
         2 => (0u16..4).prop_map(|a| IpAddr::V6(Ipv6Addr::new(0x2001, 0xdb8, 0, 0, 0, 0, 0, a))),
         1 => any::<u128>().prop_map(|x| IpAddr::V6(Ipv6Addr::from(x))),
+        // IPv6 addresses that embed an IPv4 address of the pool (IPv4-compatible `::a.b.c.d`, IPv4-mapped `::ffff:a.b.c.d`), `::1`, `::`:
+        // they are IPv6 addresses and match IPv6 entries only
+        2 => (0u8..4, 0u8..4, 0u8..4).prop_map(|(k, a, b)| IpAddr::V6(match k {
+            0 => Ipv6Addr::new(0, 0, 0, 0, 0, 0, 0x0a00, ((a as u16) << 8) | b as u16),
+            1 => Ipv6Addr::new(0, 0, 0, 0, 0, 0xffff, 0x0a00, ((a as u16) << 8) | b as u16),
+            2 => Ipv6Addr::new(0, 0, 0, 0, 0, 0, 0, 1),
+            _ => Ipv6Addr::new(0, 0, 0, 0, 0, 0, 0, 0),
+        })),
     ]
 }
 
@@ -312,6 +320,20 @@ pub fn addr_candidates(spec: &FilterSpec, v6: bool, rnd: u128) -> Vec<IpAddr> {
     v.push(if v6 { IpAddr::V6(Ipv6Addr::new(0x2001, 0xdb8, 0, 0, 0, 0, 0, 1)) } else { IpAddr::V4(Ipv4Addr::new(10, 0, 1, 1)) });
     if let Some(i) = &spec.ip {
         v.extend(i.addrs.iter().filter(|a| a.is_ipv6() == v6).copied());
+        // the other family's listed addresses in embedded form (must NOT match: different address family)
+        for a in &i.addrs {
+            match (a, v6) {
+                (IpAddr::V4(x), true) => {
+                    v.push(IpAddr::V6(x.to_ipv6_mapped()));
+                    v.push(IpAddr::V6(x.to_ipv6_compatible()));
+                }
+                (IpAddr::V6(x), false) => {
+                    let o = x.octets();
+                    v.push(IpAddr::V4(Ipv4Addr::new(o[12], o[13], o[14], o[15])));
+                }
+                _ => {}
+            }
+        }
     }
     if let Some(s) = &spec.subnet {
         for (a, p) in &s.nets {
